@@ -107,10 +107,12 @@ def check_one(arg):
 
     from engine import common, seams
 
-    vi, kind = arg
+    vi, kind, tz = arg
     version = REDUN_DB_VERSIONS[vi]
-    os.environ["TZ"] = "UTC"
+    os.environ["TZ"] = tz
     time.tzset()
+    # the 3.3 -> 3.4 migration reinterprets job times, stored as local wall-clock time before, as UTC instants
+    shift_h = {"UTC": 0, "JST-9": -9}[tz] if (version.major, version.minor) < (3, 4) else 0
     path = os.path.join(common.scratch_dir(), f"c36-{vi}-{kind}-{os.getpid()}.db")
     seams.remove_db(path)
     viol = []
@@ -123,7 +125,7 @@ def check_one(arg):
     populate(con, info, kind)
     before = dump(con, info)
     con.close()
-    case = {"from_version": f"{version.major}.{version.minor}", "population": kind}
+    case = {"from_version": f"{version.major}.{version.minor}", "population": kind, "tz": tz}
     nrows = sum(len(t["rows"]) for t in before.values())
     try:
         b2 = RedunBackendDb(db_uri=f"sqlite:///{path}")
@@ -149,7 +151,12 @@ def check_one(arg):
                 ncols += 1
                 if row[n] is None and arow[n] is not None:
                     continue  # a migration may backfill a column that was NULL
-                if norm(row[n]) != norm(arow[n]):
+                want = row[n]
+                if shift_h and t == "job" and n in ("start_time", "end_time") and isinstance(want, str):
+                    import datetime as _dt
+
+                    want = (_dt.datetime.strptime(want, "%Y-%m-%d %H:%M:%S.%f") + _dt.timedelta(hours=shift_h)).strftime("%Y-%m-%d %H:%M:%S.%f")
+                if norm(want) != norm(arow[n]):
                     viol.append((f"value-changed:{t}.{n}", case, f"{case}: {t}.{n} of row {pk}: {row[n]!r} -> {arow[n]!r}"))
     # usable for caching: run a workflow twice on the upgraded database
     try:
@@ -169,9 +176,11 @@ def check_one(arg):
     except Exception as e:  # noqa: BLE001
         viol.append((f"run-on-upgraded-db-raises:{type(e).__name__}:{kind}", case, f"{case}: {e!r}"))
     seams.remove_db(path)
+    os.environ["TZ"] = "UTC"
+    time.tzset()
     best = {}
     for sig, c, d in viol:
-        best.setdefault(sig, (c, d))
+        best.setdefault(sig + ("" if tz == "UTC" else ":tz=" + tz), (c, d))
     return {"viol": [(s, c, d) for s, (c, d) in best.items()], "rows": nrows, "cols": ncols}
 
 
@@ -180,7 +189,8 @@ def run(ctx):
 
     from engine.common import check_harness_errors
 
-    items = [(vi, kind) for vi in range(len(REDUN_DB_VERSIONS)) for kind in POPULATIONS]
+    items = [(vi, kind, "UTC") for vi in range(len(REDUN_DB_VERSIONS)) for kind in POPULATIONS]
+    items += [(vi, kind, "JST-9") for vi in range(len(REDUN_DB_VERSIONS)) for kind in POPULATIONS[:2]]
     res = ctx.pmap(check_one, ctx.rotate(items), chunksize=1)
     check_harness_errors(res)
     best = {}
@@ -195,7 +205,8 @@ def run(ctx):
         "rows_compared": sum(r["rows"] for r in res), "column_values_compared": sum(r["cols"] for r in res), "exhaustive": True,
         "rule": "each of the 11 historical schema versions as starting point x 5 populations generated from the reflected schema (two FK-consistent rows "
         "per table; one row with every nullable non-key column NULL; tasks without companion values; root jobs without an execution; empty), upgraded "
-        "to head by load() with TZ=UTC; oracle: every (table, primary key) is still present with equal values in the shared columns (timestamps "
+        "to head by load() with TZ=UTC (the two populated kinds also with TZ=JST-9, where the 3.3->3.4 step must move job times by exactly the "
+        "zone offset, finished or not); oracle: every (table, primary key) is still present with equal values in the shared columns (timestamps "
         "compared as instants), and a workflow run twice on the upgraded file succeeds with the second run fully cached",
         "samples": [{"from_version": i[0], "population": i[1]} for i in items[:3]],
-    }, "assumptions": ["SQLite only; TZ=UTC"]}
+    }, "assumptions": ["SQLite only; time zones UTC and JST-9"]}
